@@ -10,7 +10,14 @@ PROP = {
                    "scripts) and payer options is tried: both sides must agree on affordability, build byte-identical transactions, "
                    "each signature must verify (CompleteCooperativeClose on both sides after a wire round trip of the signatures), the "
                    "completed tx must pass btcd's interpreter against the harness-derived funding script and its outputs must equal "
-                   "balance (+commit fee+anchors for the opener) - fee (payer), omitted below the owner's dust limit, sum+fee<=capacity."),
+                   "balance (+commit fee+anchors for the opener) - fee (payer), omitted below the owner's dust limit, sum+fee<=capacity. "
+                   "A quarter of the cases are balance-shaping cases: the non-opener starts with nothing, every HTLC of the schedule is failed and "
+                   "one settled HTLC then lifts its balance to a dust threshold -1/0/+1 sat (either channel dust limit, the dust value of either "
+                   "delivery script, standard script dust values; any sub-satoshi remainder), and a third of the fees put the PAYER's output at "
+                   "its dust limit -1/0/+1 or the fee at everything it owns -1/0/+1, so that the dust rule is judged exactly at its boundary for "
+                   "both the paying and the non-paying party. In the RBF flow an honest closee refusing the honest closer's closing_complete "
+                   "because it expects a transaction with other outputs (ErrCloserNoClosee / ErrCloserAndClosee) counts as the two sides not "
+                   "building the same transaction."),
     "level_note": ("transaction level + legacy negotiation (two real ChanClosers over the real channels, ideal-fee lattice "
                    "[100..50000] sat^2, caps containing the other's ideal; finishes on both sides, <=200 messages, final fee among "
                    "the offers both signed, identical valid tx) + RBF-coop state machine (unit rbf: one rbf_coop_transitions machine per "
@@ -31,7 +38,8 @@ PROP = {
         "files": _E1 + ["lnwallet/c01_test.go", "lnwallet/c17_test.go"],
         "shards": {"quick": 10, "thorough": 16},
         "watchdog": {"quick": 900, "thorough": 5400},
-        "floors": {"quick": {"trials": 1500, "oracle_exact_outputs": 800, "unaffordable_trials": 100},
+        "floors": {"quick": {"trials": 1500, "oracle_exact_outputs": 800, "unaffordable_trials": 100,
+                             "shaped_nonopener_balance": 60, "payer_edge_fee_trials": 500},
                    "thorough": {"trials": 13000}},
     }, {
         "name": "negotiation", "pkg": "lnwallet/chancloser", "test": "TestVerifC17Negotiation",
@@ -47,7 +55,8 @@ PROP = {
         "watchdog": {"quick": 900, "thorough": 5400},
         "floors": {"quick": {"nontrivial": 185, "oracle_identical_tx": 490, "oracle_exact_outputs": 490,
                              "oracle_interpreter": 490, "rbf_replacements": 170, "unaffordable_refused": 110,
-                             "closer_output_dust": 90, "closee_output_dust": 22, "both_sides_closed": 115},
+                             "closer_output_dust": 90, "closee_output_dust": 22, "both_sides_closed": 115,
+                             "shaped_nonopener_balance": 45},
                    "thorough": {"nontrivial": 13000, "oracle_identical_tx": 35000, "oracle_exact_outputs": 35000,
                                 "rbf_replacements": 13000, "unaffordable_refused": 8500,
                                 "closee_output_dust": 2400}},
